@@ -244,7 +244,7 @@ def check(prop, tier, seed):
     mscripts = [conv_marker_script(h, 73000000 + i) for i, h in enumerate(G.dedupe_prefixes(tl))]
     scripts = (content_scripts(tier, rng, 71000000) + random_scripts(tier, rng, 72000000, 250 if tier == "quick" else 4000)
                + mscripts)
-    workdir = os.path.join(C.OUT, "work", key)
+    workdir = os.path.join(C.OUT, "work", "%s_%d" % (key, os.getpid()))
     C.sh(["rm", "-rf", workdir])
     r = C.exec_and_validate("sl", scripts, workdir, "SaveLoad_Trace.tla", "SaveLoad_Trace.cfg", events_per_chunk=1500,
                             est_events_per_script=20)
